@@ -77,3 +77,267 @@ Section Dir.
     - destruct (find_child ch (wh_prefix ++ n)) as [e|]; [destruct (ino_of (c_base c) (e_id e))|]; reflexivity.
   Qed.
 End Dir.
+
+(* ====================================================================================================
+   Whole trees and stacks *)
+
+Lemma alookup_app : forall {A} (l1 l2 : list (string * A)) n,
+  alookup (l1 ++ l2) n = match alookup l1 n with Some x => Some x | None => alookup l2 n end.
+Proof.
+  intros A l1 l2 n. unfold alookup. induction l1 as [|[m x] l1 IH]; simpl; [destruct (find _ l2); reflexivity|].
+  destruct (m =? n)%string; [reflexivity|exact IH].
+Qed.
+
+Lemma alookup_filter : forall {A} (P : string -> bool) (l : list (string * A)) n,
+  alookup (filter (fun q => P (fst q)) l) n = if P n then alookup l n else None.
+Proof.
+  intros A P l n. unfold alookup. induction l as [|[m x] l IH]; simpl; [destruct (P n); reflexivity|].
+  destruct (P m) eqn:Pm; simpl; destruct (String.eqb_spec m n) as [E|E].
+  - subst m. rewrite Pm. reflexivity.
+  - exact IH.
+  - subst m. rewrite Pm in *. exact IH.
+  - exact IH.
+Qed.
+
+Lemma alookup_in : forall {A} (l : list (string * A)) n x, alookup l n = Some x -> In (n, x) l.
+Proof.
+  unfold alookup. intros A l n x H. destruct (find _ l) as [p|] eqn:F; [|discriminate].
+  apply find_some in F. destruct F as [Hin E]. apply String.eqb_eq in E. destruct p as [m y]. simpl in *. inversion H. subst. exact Hin.
+Qed.
+
+Lemma alookup_none_notin : forall {A} (l : list (string * A)) n, alookup l n = None -> ~ In n (map fst l).
+Proof.
+  unfold alookup. intros A l n H Hin. destruct (find _ l) as [p|] eqn:F; [discriminate|].
+  apply in_map_iff in Hin. destruct Hin as [q [E Hq]]. eapply find_none in F; [|exact Hq]. simpl in F. rewrite E, String.eqb_refl in F. discriminate.
+Qed.
+
+Lemma alookup_cons : forall {A} m (x : A) l n, alookup ((m, x) :: l) n = if (m =? n)%string then Some x else alookup l n.
+Proof. intros A m x l n. unfold alookup. simpl. destruct (m =? n)%string; reflexivity. Qed.
+
+Lemma alookup_flat_map : forall {A B} (F : string * A -> list (string * B)) (G : string -> A -> option B) (l : list (string * A)) n,
+  NoDup (map fst l) ->
+  (forall m x, F (m, x) = match G m x with Some v => [(m, v)] | None => [] end) ->
+  alookup (flat_map F l) n = match alookup l n with Some x => G n x | None => None end.
+Proof.
+  intros A B F G l n ND HF. induction l as [|[m x] l IH]; [reflexivity|].
+  cbn [flat_map]. inversion ND as [|? ? Hnot ND']; subst. rewrite alookup_app, HF, (IH ND'), alookup_cons.
+  destruct (String.eqb_spec m n) as [E|E].
+  - subst m. destruct (G n x) as [v|]; [rewrite alookup_cons, String.eqb_refl; reflexivity|].
+    cbn. destruct (alookup l n) as [y|] eqn:L; [|reflexivity]. exfalso. apply Hnot.
+    apply alookup_in in L. change n with (fst (n, y)). apply in_map. exact L.
+  - destruct (G m x) as [v|]; [|reflexivity]. rewrite alookup_cons. destruct (String.eqb_spec m n); [contradiction|]. reflexivity.
+Qed.
+
+Lemma find_child_view : forall kids n, find_child (view kids) n = option_map lt_ent (alookup kids n).
+Proof.
+  intros kids n. unfold find_child, alookup, view. induction kids as [|[m t] kids IH]; [reflexivity|].
+  simpl. destruct (m =? n)%string; [reflexivity|exact IH].
+Qed.
+
+Lemma nodupb_NoDup : forall l, nodupb l = true -> NoDup l.
+Proof.
+  induction l as [|x l IH]; intros H; [constructor|]. simpl in H. apply andb_true_iff in H. destruct H as [H1 H2].
+  constructor; [|apply IH; exact H2]. intros Hin. apply negb_true_iff in H1.
+  assert (existsb (fun y => (y =? x)%string) l = true); [|congruence].
+  apply existsb_exists. exists x. split; [exact Hin|apply String.eqb_refl].
+Qed.
+
+Lemma view_names : forall kids, map fst (view kids) = map fst kids.
+Proof. intros kids. unfold view. rewrite map_map. reflexivity. Qed.
+
+(* what a name of the merged directory resolves to, overlay side *)
+Lemma over_lookup : forall c self kids lower n, NoDup (map fst kids) ->
+  alookup (over_tree c (LT self kids) lower) n =
+  match overlay_origin c self (view kids) true n with
+  | Absent => None
+  | FromLower => alookup lower n
+  | FromUpper e a =>
+      match alookup kids n with
+      | Some tn => Some (RN e a (if is_dir_attr a
+                                 then over_tree (sub_cfg c) tn
+                                        (if overlay_child_sees_lower c self (view kids) (lower_is_dir lower n) n then lower_kids lower n else [])
+                                 else []))
+      | None => None
+      end
+  end.
+Proof.
+  intros c self kids lower n ND. cbn [over_tree]. rewrite alookup_app.
+  rewrite (alookup_flat_map _
+    (fun m tm => match overlay_origin c self (view kids) true m with
+                 | FromUpper e a => Some (RN e a (if is_dir_attr a
+                       then over_tree (sub_cfg c) tm (if overlay_child_sees_lower c self (view kids) (lower_is_dir lower m) m then lower_kids lower m else [])
+                       else []))
+                 | _ => None end) kids n ND).
+  2:{ intros m x. destruct (overlay_origin c self (view kids) true m); reflexivity. }
+  rewrite (alookup_filter (fun m => from_lower (overlay_origin c self (view kids) true m)) lower n).
+  destruct (alookup kids n) as [tn|]; destruct (overlay_origin c self (view kids) true n); reflexivity.
+Qed.
+
+Lemma oci_lookup : forall c self kids lower n, NoDup (map fst kids) -> image_name c n = true ->
+  alookup (oci_tree c (LT self kids) lower) n =
+  match oci_origin c (view kids) true n with
+  | Absent => None
+  | FromLower => alookup lower n
+  | FromUpper e a =>
+      match alookup kids n with
+      | Some tn => Some (RN e a (if is_dir_attr a
+                                 then oci_tree (sub_cfg c) tn
+                                        (if oci_child_sees_lower c (view kids) (lower_is_dir lower n) n then lower_kids lower n else [])
+                                 else []))
+      | None => None
+      end
+  end.
+Proof.
+  intros c self kids lower n ND Himg. cbn [oci_tree]. rewrite alookup_app.
+  rewrite (alookup_flat_map _
+    (fun m tm => if image_name c m then
+                 match oci_origin c (view kids) true m with
+                 | FromUpper e a => Some (RN e a (if is_dir_attr a
+                       then oci_tree (sub_cfg c) tm (if oci_child_sees_lower c (view kids) (lower_is_dir lower m) m then lower_kids lower m else [])
+                       else []))
+                 | _ => None end else None) kids n ND).
+  2:{ intros m x. destruct (image_name c m); [|reflexivity]. destruct (oci_origin c (view kids) true m); reflexivity. }
+  rewrite (alookup_filter (fun m => from_lower (oci_origin c (view kids) true m)) lower n). rewrite Himg.
+  destruct (alookup kids n) as [tn|]; destruct (oci_origin c (view kids) true n); reflexivity.
+Qed.
+
+(* resolution, one component at a time *)
+Definition res_node (o : option rnode) (p' : list string) : option (ent * fattr) :=
+  match o with
+  | None => None
+  | Some (RN e a k) => match p' with [] => Some (e, a) | _ => if is_dir_attr a then resolve k p' else None end
+  end.
+Lemma resolve_cons : forall l n p', resolve l (n :: p') = res_node (alookup l n) p'.
+Proof. reflexivity. Qed.
+
+Lemma resolve_nil_l : forall p, resolve [] p = None.
+Proof. destruct p; reflexivity. Qed.
+
+Lemma resolve_lower_kids : forall l n q, q <> [] -> resolve l (n :: q) = resolve (lower_kids l n) q.
+Proof.
+  intros l n q Hq. rewrite resolve_cons. unfold res_node, lower_kids.
+  destruct (alookup l n) as [[e a k]|]; [|symmetry; apply resolve_nil_l].
+  destruct q as [|m q]; [congruence|]. destruct (is_dir_attr a); [reflexivity|symmetry; apply resolve_nil_l].
+Qed.
+
+Definition good (root : bool) (p : list string) : bool :=
+  match p with
+  | [] => true
+  | n :: p' => name_ok root n && forallb (name_ok false) p'
+  end.
+
+Lemma good_sub : forall root n p', good root (n :: p') = true -> good false p' = true.
+Proof.
+  intros root n p' H. simpl in H. apply andb_true_iff in H. destruct H as [_ H]. destruct p' as [|m q]; [reflexivity|]. exact H.
+Qed.
+
+Lemma name_ok_spec : forall root n, name_ok root n = true ->
+  n <> ""%string /\ is_dot n = false /\ has_wh n = false
+  /\ (root = true -> is_landmark n = false /\ n <> state_dir_name).
+Proof.
+  unfold name_ok. intros root n H. apply andb_true_iff in H. destruct H as [H H4]. apply andb_true_iff in H. destruct H as [H H3].
+  apply andb_true_iff in H. destruct H as [H1 H2]. apply negb_true_iff in H1, H2, H3.
+  split; [intros ->; discriminate|]. split; [exact H2|]. split; [exact H3|].
+  intros ->. apply andb_true_iff in H4. destruct H4 as [H4 H5]. apply negb_true_iff in H4, H5.
+  split; [exact H4|]. intros ->. rewrite String.eqb_refl in H5. discriminate.
+Qed.
+
+Lemma dev_indep : forall i j a, is_whiteout_dev (entry_to_attr i a) = is_whiteout_dev (entry_to_attr j a).
+Proof. reflexivity. Qed.
+Lemma dir_indep : forall i j a, is_dir_attr (entry_to_attr i a) = is_dir_attr (entry_to_attr j a).
+Proof. reflexivity. Qed.
+
+Lemma lower_is_dir_equiv : forall root l1 l2 n,
+  (forall q, good root q = true -> resolve l1 q = resolve l2 q) -> name_ok root n = true ->
+  lower_is_dir l1 n = lower_is_dir l2 n.
+Proof.
+  intros root l1 l2 n Heq Hn. assert (G : good root [n] = true) by (simpl; rewrite Hn; reflexivity).
+  specialize (Heq [n] G). rewrite !resolve_cons in Heq. unfold res_node in Heq. unfold lower_is_dir.
+  destruct (alookup l1 n) as [[e1 a1 k1]|]; destruct (alookup l2 n) as [[e2 a2 k2]|]; try discriminate; [|reflexivity].
+  inversion Heq. reflexivity.
+Qed.
+
+(* facts the allowed class gives about one directory *)
+Lemma allowed_kid : forall c self kids n tn, allowed_tree c (LT self kids) = true -> In (n, tn) kids ->
+  (exists i, ino_of (c_base c) (e_id (lt_ent tn)) = Some i)
+  /\ (image_name c n = true -> is_whiteout_dev (kid_attr tn) = false)
+  /\ (whited (view kids) n = true -> is_dir_attr (kid_attr tn) = false)
+  /\ allowed_tree (sub_cfg c) tn = true.
+Proof.
+  intros c self kids n tn H Hin. cbn [allowed_tree] in H. apply andb_true_iff in H. destruct H as [_ H].
+  rewrite forallb_forall in H. specialize (H (n, tn) Hin). cbn beta iota in H.
+  apply andb_true_iff in H. destruct H as [H H4]. apply andb_true_iff in H. destruct H as [H H3].
+  apply andb_true_iff in H. destruct H as [H1 H2].
+  split; [destruct (ino_of (c_base c) (e_id (lt_ent tn))) as [i|]; [eauto|discriminate]|].
+  split; [intros Hi; rewrite Hi in H2; apply negb_true_iff in H2; exact H2|].
+  split; [intros Hw; rewrite Hw in H3; simpl in H3; apply negb_true_iff in H3; exact H3|exact H4].
+Qed.
+
+Lemma view_kid : forall kids n e, find_child (view kids) n = Some e -> exists tn, In (n, tn) kids /\ lt_ent tn = e.
+Proof.
+  intros kids n e H. rewrite find_child_view in H. destruct (alookup kids n) as [tn|] eqn:L; [|discriminate].
+  simpl in H. inversion H. exists tn. split; [apply alookup_in; exact L|reflexivity].
+Qed.
+
+(* the whole-tree statement for one layer on top of equivalent lower directories *)
+Lemma tree_equiv : forall p c t l1 l2,
+  allowed_tree c t = true -> good (c_root c) p = true ->
+  (forall q, good (c_root c) q = true -> resolve l1 q = resolve l2 q) ->
+  resolve (over_tree c t l1) p = resolve (oci_tree c t l2) p.
+Proof.
+  induction p as [|n p' IH]; intros c t l1 l2 Hal Hg Heq; [reflexivity|].
+  destruct t as [self kids]. pose proof Hal as Hal0. cbn [allowed_tree] in Hal.
+  apply andb_true_iff in Hal. destruct Hal as [Hal _]. apply andb_true_iff in Hal. destruct Hal as [Hal Hroot].
+  apply andb_true_iff in Hal. destruct Hal as [Hnd Hown]. apply nodupb_NoDup in Hnd.
+  assert (Hn : name_ok (c_root c) n = true) by (simpl in Hg; apply andb_true_iff in Hg; tauto).
+  destruct (name_ok_spec _ _ Hn) as [Hne [Hdot [Hwh Hr]]].
+  assert (Himg : image_name c n = true).
+  { unfold image_name. rewrite Hwh. simpl. destruct (c_root c) eqn:R; [|reflexivity]. destruct (Hr eq_refl) as [Hl _]. rewrite Hl. reflexivity. }
+  assert (Hst : ~ (c_root c = true /\ n = state_dir_name)) by (intros [R E]; destruct (Hr R) as [_ Hs]; contradiction).
+  assert (Hown' : forall a, In a (opaque_xattrs (c_mode c)) -> assoc (a_xattrs (e_attr self)) a = None).
+  { intros a Ha. rewrite forallb_forall in Hown. specialize (Hown a Ha). destruct (assoc _ a); [discriminate|reflexivity]. }
+  assert (Hids : forall m e, m = n \/ m = (wh_prefix ++ n)%string -> find_child (view kids) m = Some e -> ino_of (c_base c) (e_id e) <> None).
+  { intros m e _ F. destruct (view_kid kids m e F) as [tm [Hin <-]]. destruct (allowed_kid c self kids m tm Hal0 Hin) as [[i Hi] _]. congruence. }
+  assert (Hdev : forall e i, find_child (view kids) n = Some e -> is_whiteout_dev (entry_to_attr i (e_attr e)) = false).
+  { intros e i F. destruct (view_kid kids n e F) as [tn [Hin <-]]. destruct (allowed_kid c self kids n tn Hal0 Hin) as [_ [Hd _]].
+    rewrite (dev_indep i 0). exact (Hd Himg). }
+  assert (Hexcl : forall e i, find_child (view kids) n = Some e -> whited (view kids) n = true -> is_dir_attr (entry_to_attr i (e_attr e)) = false).
+  { intros e i F W. destruct (view_kid kids n e F) as [tn [Hin <-]]. destruct (allowed_kid c self kids n tn Hal0 Hin) as [_ [_ [Hx _]]].
+    rewrite (dir_indep i 0). exact (Hx W). }
+  rewrite !resolve_cons, (over_lookup c self kids l1 n Hnd), (oci_lookup c self kids l2 n Hnd Himg).
+  rewrite (overlay_is_oci c self (view kids) n Himg Hst Hids Hdev Hown' true).
+  destruct (oci_origin c (view kids) true n) as [|e a|] eqn:O.
+  - reflexivity.
+  - destruct (alookup kids n) as [tn|] eqn:K; [|reflexivity]. unfold res_node.
+    destruct p' as [|m q]; [reflexivity|]. destruct (is_dir_attr a); [|reflexivity].
+    assert (Hin : In (n, tn) kids) by (apply alookup_in; exact K).
+    destruct (allowed_kid c self kids n tn Hal0 Hin) as [_ [_ [_ Hsub]]].
+    apply IH; [exact Hsub|exact (good_sub _ _ _ Hg)|].
+    intros q' Hq'. cbn [sub_cfg c_root] in Hq'.
+    rewrite (lower_is_dir_equiv (c_root c) l1 l2 n Heq Hn).
+    rewrite (child_merge_rule c self (view kids) n Himg Hst Hdev Hown' Hexcl (lower_is_dir l2 n)).
+    destruct (oci_child_sees_lower c (view kids) (lower_is_dir l2 n) n); [|reflexivity].
+    destruct q' as [|m' q'']; [reflexivity|].
+    rewrite <- !resolve_lower_kids by discriminate. apply Heq.
+    simpl. rewrite Hn. simpl in Hq'. exact Hq'.
+  - fold (res_node (alookup l1 n) p'). rewrite <- !resolve_cons. apply Heq. exact Hg.
+Qed.
+
+Lemma stack_equiv_from : forall (s : stack) l1 l2,
+  allowed_stack s = true ->
+  (forall q, good true q = true -> resolve l1 q = resolve l2 q) ->
+  forall p, good true p = true ->
+    resolve (fold_left (fun acc ct => over_tree (fst ct) (snd ct) acc) s l1) p
+    = resolve (fold_left (fun acc ct => oci_tree (fst ct) (snd ct) acc) s l2) p.
+Proof.
+  induction s as [|[c t] s IH]; intros l1 l2 Hal Heq p Hp; simpl; [apply Heq; exact Hp|].
+  simpl in Hal. apply andb_true_iff in Hal. destruct Hal as [Hct Hal]. apply andb_true_iff in Hct. destruct Hct as [Hroot Ht].
+  apply IH; [exact Hal| |exact Hp].
+  intros q Hq. apply tree_equiv; [exact Ht|rewrite Hroot; exact Hq|rewrite Hroot; exact Heq].
+Qed.
+
+Lemma served_stack_is_rootfs : forall (s : stack) p, allowed_stack s = true -> path_ok p = true ->
+  resolve (overlay_stack s) p = resolve (oci_stack s) p.
+Proof.
+  intros s p Hal Hp. unfold overlay_stack, oci_stack. apply stack_equiv_from; [exact Hal|reflexivity|exact Hp].
+Qed.
